@@ -267,6 +267,11 @@ def unit_solve(has_prompt=True):
             z3.Exists([D], z3.And(s1.UF.has[D], s1.UF.ln[D] > 0)), z3.Exists([D], z3.And(s1.UI.has[D], s1.UI.ln[D] > 0))))))
         out.append(('done-flag-set', z3.BoolVal(me.attrs.get('_done_solving') is True)))
         out += [(f'exit/{l}', g) for l, g in sm.invariant(s1)]
+        # frame of a whole solve() from ANY state (a second call on the same solver included): nothing held at entry is dropped -
+        # values, inputs, answers, scheduled lines, and the lines recorded as unimplemented
+        entry = it.ghost.get('solve_entry')
+        if entry is not None:
+            out += [(f'exit/since-entry/{l}', g) for l, g in sm.grows(entry, s1)]
         return out
 
     def props_of(label):
